@@ -153,6 +153,12 @@ func c18Flows() []c18Flow {
 				r := c.w.Revoke(url.Values{"token": {c.liveRT}}, basic(c))
 				return c18Resp{ok: r.Err.OK(), err: r.Err}
 			}},
+		{name: "revocation-by-access-token",
+			setup: func(c *c18Ctx) { tr := pwd(c); c.liveAT, c.liveRT = tr.Access, tr.Refresh },
+			request: func(c *c18Ctx) c18Resp {
+				r := c.w.Revoke(url.Values{"token": {c.liveAT}}, basic(c))
+				return c18Resp{ok: r.Err.OK(), err: r.Err}
+			}},
 		{name: "par-push", token: true,
 			request: func(c *c18Ctx) c18Resp {
 				f := authzQ("code")
@@ -345,6 +351,13 @@ func c18Check(t h.TB, fl c18Flow, store string, k int, kind string, second *[2]i
 	if fl.token && unexpected && !tolerated && !resp.crashed && resp.ok {
 		fail("C18/request-succeeded-despite-storage-failure", "the request succeeded although storage call %s failed with %s", target.Method, kind)
 	}
+	// 1b. a revocation that is answered with success although a write failed must still have been effective: the
+	// caller stops retrying, so the token and its sibling must be dead (fail-closed; nothing half-revoked is reported done)
+	if strings.HasPrefix(fl.name, "revocation") && unexpected && !tolerated && !resp.crashed && resp.ok && !isRead {
+		if w.IntrospectDirect(c.liveRT, fosite.RefreshToken).Active || w.IntrospectDirect(c.liveAT, fosite.AccessToken).Active {
+			fail("C18/revocation-accepted-but-token-active", "revocation answered success although %s failed with %s, and a token of the grant is still active", target.Method, kind)
+		}
+	}
 	// 2. serialization conflicts while refreshing are reported as retryable, not as server_error
 	if fl.name == "refresh" && kind == "serialization" && inTx && target.Method != "BeginTX" && resp.err.Name == "server_error" {
 		fail("C18/serialization-failure-not-retryable", "a serialization conflict during refresh was reported as server_error")
@@ -418,7 +431,7 @@ func c18Check(t h.TB, fl c18Flow, store string, k int, kind string, second *[2]i
 	if retry.ok {
 		successes++
 	}
-	if rolledBack && second == nil && !retry.ok && fl.name != "refresh-reuse" && fl.name != "revocation" {
+	if rolledBack && second == nil && !retry.ok && fl.name != "refresh-reuse" && !strings.HasPrefix(fl.name, "revocation") {
 		fail("C18/credential-lost-after-rollback", "the failure was inside the transaction of a transactional store, but the legitimate retry is refused: %v %s", retry.err, retry.err.Hint)
 	}
 	if fl.single {
@@ -485,7 +498,7 @@ func TestC18_SingleFaults(t *testing.T) {
 			}
 		}
 	}
-	h.SetExhaustive("single faults: every storage call index x {generic, not_found, inactive, serialization, crash} x {reference store, transactional store} x 13 flows", true)
+	h.SetExhaustive("single faults: every storage call index x {generic, not_found, inactive, serialization, crash} x {reference store, transactional store} x 14 flows", true)
 	h.MarkCompleted()
 }
 
